@@ -236,10 +236,10 @@ def extract_iter(
             while to_unwrap and to_unwrap[0][2] >= depth:
                 to_unwrap.popleft()
         else:
-            # Only inserting new items into the stack trace; since
-            # next_inner is in both `items` and `to_unwrap`, remove it
-            # from the latter
-            to_unwrap.popleft()
+            # Only inserting new items into the stack trace; next_inner
+            # (if any) is already at the front of `to_unwrap` with its own
+            # depth, so leave it there and don't queue it a second time
+            items = items[:-1]
         for item in reversed(items):
             to_unwrap.appendleft((better_origin(item, None), item, depth))
 
